@@ -11496,10 +11496,21 @@ func ruleResolvedDefinitionSwitchesResolveAliases(c *core.Ctx) {
 						}
 					}
 				}
-			} else if len(d.Body.List) > 0 {
-				if es, ok := d.Body.List[len(d.Body.List)-1].(*ast.ExprStmt); ok {
-					if ce, ok := es.X.(*ast.CallExpr); ok && core.NoReturn(info, ce) {
-						aborts = true
+			} else {
+				// the innermost function around the switch: the declared function or a literal in it (a local
+				// closure `getWrapper := func(t dsl.Type) … { switch … }; panic(…) }`, fix 7bf9700)
+				body := d.Body
+				ast.Inspect(d.Body, func(m ast.Node) bool {
+					if fl, ok := m.(*ast.FuncLit); ok && fl.Body.Pos() <= ts.Pos() && ts.End() <= fl.Body.End() {
+						body = fl.Body
+					}
+					return true
+				})
+				if len(body.List) > 0 {
+					if es, ok := body.List[len(body.List)-1].(*ast.ExprStmt); ok {
+						if ce, ok := es.X.(*ast.CallExpr); ok && core.NoReturn(info, ce) {
+							aborts = true
+						}
 					}
 				}
 			}
